@@ -835,8 +835,15 @@ fn weird_reply(rng: &mut Rng, own: u8, a: u8, ilen: usize, ident: u16) -> String
         4 => rng.below(8) as usize,
         _ => ilen,
     };
-    match rng.below(12) {
+    match rng.below(14) {
         0 => "sc".to_string(),
+        // a perfect data-exchange reply except that exactly ONE service access point is not the default
+        12 | 13 => {
+            let sap = *rng.pick(&[62u8, 60, 61, 0, 63, 1]);
+            let (d, s) = if rng.bool() { (Some(sap), None) } else { (None, Some(sap)) };
+            let st = *rng.pick(&[0u8, 8, 10]);
+            format!("data {own} {a} {} {} r.{state}.{st} {}", opt_u8(d), opt_u8(s), hex(&rng.bytes(ilen)))
+        }
         // well-formed diagnostics reply, every flag combination
         1 | 2 | 3 => {
             let mask = rng.below(64) as u8;
